@@ -47,14 +47,25 @@ Proof. exact import_nul. Qed.
 Print Assumptions C05_nul_append.
 Print Assumptions C05_nul_import.
 
-(* why the hypothesis on the queried topic is needed (known finding F9): with a NUL in the
-   queried topic the prefix can match another topic's key *)
+(* a NUL inside the QUERIED topic (F9, fixed in /repo): the prefix ctx|topic|0 can match the key of
+   a shorter topic whose id starts with a zero byte - the unguarded lookup of the pinned code
+   returns a frame of ANOTHER topic; the fixed head answers None, as the spec does *)
 Example C05_nul_query_refuted :
   exists f t, has_nul t = true /\ f_topic f <> t /\ is_prefix (tprefix 0 t) (tkey f) = true.
 Proof.
   exists (mkFrame 0 0 [97] None None None), [97; 0; 0].
   split; [reflexivity|]. split; [discriminate|]. vm_compute. reflexivity.
 Qed.
+Example C05_unguarded_head_refuted :
+  exists s t f, head_unguarded s t 0 = Some f /\ f_topic f <> t.
+Proof.
+  exists (snd (insert_frame (empty_store 0) (mkFrame 0 0 [97] None None None))), [97; 0; 0],
+         (mkFrame 0 0 [97] None None None).
+  split; [vm_compute; reflexivity|discriminate].
+Qed.
+Theorem C05_head_nul_query : forall s t c, has_nul t = true -> head s t c = None.
+Proof. intros s t c H. unfold head. rewrite H. reflexivity. Qed.
+Print Assumptions C05_head_nul_query.
 
 Example C05_nonvacuous :
   admissible 0 [OAppend 5 (mkFrame 0 0 [97] None None None);
